@@ -8,6 +8,7 @@ import (
 	"testing"
 	"time"
 
+	"github.com/pentops/j5/gen/j5/ext/v1/ext_j5pb"
 	"github.com/pentops/j5/internal/bcl/internal/verif/codecx"
 	"github.com/pentops/j5/internal/bcl/internal/verif/j5ref"
 	"github.com/pentops/j5/internal/bcl/internal/verif/pgen"
@@ -326,13 +327,11 @@ func check(s *codecx.Schema, c setCase) (fails []vf.Failure, built int) {
 				// a message type may be declared a oneof by annotation alone
 				// ((j5.ext.v1.message).oneof on plain fields): an instance of the
 				// reflected type has at most one member set, at every level
+				// (read from the descriptor's own annotation, not from the schema
+				// under test: a reader that takes an object for a oneof must stay visible)
 				pruneOneofs(m, func(md protoreflect.MessageDescriptor) bool {
-					var rs j5schema.RootSchema
-					if f := vf.GuardTimed("SchemaCache.Schema", callLimit, func() { rs, _ = cache.Schema(md) }); f != nil {
-						return false
-					}
-					_, isOneof := rs.(*j5schema.OneofSchema)
-					return isOneof
+					mo, _ := proto.GetExtension(md.Options(), ext_j5pb.E_Message).(*ext_j5pb.MessageOptions)
+					return mo.GetOneof() != nil || mo.GetIsOneofWrapper() // the latter is the deprecated spelling
 				}, s.Types, 0)
 				msgs = append(msgs, m)
 			}
